@@ -231,7 +231,10 @@ pub struct Rans64Encoder<P: ParallelVariant> {
 impl<P: ParallelVariant> Rans64Encoder<P> {
     /// Create encoder from symbol frequencies
     pub fn new(frequencies: &[u32; 256]) -> Result<Self> {
-        let total_freq: u32 = frequencies.iter().sum();
+        // The table may come from an untrusted header: sum without overflow
+        let total_freq = frequencies.iter().map(|&f| f as u64).sum::<u64>();
+        let total_freq = u32::try_from(total_freq)
+            .map_err(|_| ZiporaError::invalid_data("Total frequency exceeds u32::MAX"))?;
         if total_freq == 0 {
             return Ok(Self {
                 symbols: [Rans64Symbol::new(0, 0); 256],
